@@ -324,6 +324,19 @@ func (c *specCtx) lookupLocal(name string) *types.Var {
 		lo, hi = c.fr.top.fn.Decl.Pos(), c.fr.top.fn.Decl.End()
 	}
 	inTop := func(v *types.Var) bool { return lo != 0 && lo <= v.Pos() && v.Pos() < hi }
+	if c.fr != nil && c.fr.top != nil && c.fr.top.fn != nil {
+		if nn, ok := c.fr.top.fn.renames[name]; ok {
+			present := false
+			for v := range c.st.vars {
+				if v.Name() == name && inTop(v) {
+					present = true
+				}
+			}
+			if !present {
+				name = nn
+			}
+		}
+	}
 	for v := range c.st.vars {
 		if v.Name() != name {
 			continue
